@@ -12,7 +12,7 @@ Events (tuples of primitives, JSON-able):
                                                    the server application: "S" success, "P" partial,
                                                    "F" failed, "Q" interactive query
       method/variant:  none/-  password/plain|change  keyboard-interactive/-  hostbased/-
-                       publickey/<keykind>/<algorithm>/<sig>   sig in SIG_VARIANTS
+                       publickey/<keykind>/<algorithm>/<sig>   sig in SIG_VARIANTS + SIG_MALFORMED
                        gssapi-with-mic/oid-ok|oid-bad|two-mechs
                        gssapi-keyex/ctx/valid|ctx/invalid|noctx/valid|unest/valid
   ("iresp", app)                                   SSH_MSG_USERAUTH_INFO_RESPONSE (type 61)
@@ -26,6 +26,12 @@ FAIL_CAP = 10
 SIG_VARIANTS = ("probe", "valid", "other-session", "alt-username", "alt-service", "alt-method",
                 "alt-algorithm", "alt-keyblob", "sigbit", "wrong-key", "replayed")
 # "replayed": a genuine request recorded verbatim in another session (signed by the real client code)
+# Malformed encodings of a signature made over the right data by the right key (the named algorithm is kept so
+# that verification is reached): last byte of the signature blob cut off, empty blob, blob field missing,
+# blob of the right length with all bits set.  None of them is a valid signature; some make a verifier raise
+# instead of answering "no".  (A blob with trailing bytes is deliberately absent: ECDSA's (r, s) ignore
+# them, the proof of possession is intact, and the statement does not demand canonical encodings.)
+SIG_MALFORMED = ("malformed-short", "malformed-empty", "malformed-no-blob", "malformed-ones")
 
 
 def tup(ev):
@@ -56,9 +62,12 @@ class Verdict:
 
 
 class Model:
-    def __init__(self, gss_enabled=True, enforce_cap=True):
+    def __init__(self, gss_enabled=True, enforce_cap=True, pin_user=True):
         self.gss_enabled = gss_enabled
         self.enforce_cap = enforce_cap
+        # pin_user=False: a request naming another user is judged on its own merits (C14 asks only whether each
+        # grant is backed by approval + proof for the user it is granted to; ending the connection is C16's)
+        self.pin_user = pin_user
         self.alive = True
         self.dead_cause = None
         self.authed = False
@@ -183,7 +192,7 @@ class Model:
         if self.authed:
             # RFC 4252 5.1: requests after SUCCESS are silently ignored.  Stay permissive: a grant is
             # "permitted" whenever the same request would have been a legitimate success on its own.
-            dry = Model(self.gss_enabled, False)
+            dry = Model(self.gss_enabled, False, self.pin_user)
             dv = dry._req(Verdict(), user, service, method, variant, app)
             v.ignored = True
             v.may_auth, v.may_partial = dv.may_auth, dv.may_partial
@@ -194,7 +203,7 @@ class Model:
             v.why = "other-service"
             self._die(v, "other-service")
             return v
-        if self.user is not None and user != self.user:
+        if self.pin_user and self.user is not None and user != self.user:
             v.why = "username-change"
             self._die(v, "username-change")
             return v
